@@ -891,7 +891,7 @@ def corr_fock(ctx):
         m_dist = np.array(m_dist, dtype=float)
         bad = []
         tot = m_dist.sum()
-        if not close(m_dist / tot if tot > 0 else m_dist, rec["p"], 1e-8):
+        if not close(m_dist / tot if tot > 0 else m_dist, rec["p"], 1e-6):
             bad.append("choice-p")
         smp = out["ret"]
         if smp.shape != (1, len(spec["meas"]["modes"])) or [int(x) for x in smp[0]] != list(m_outcome):
@@ -964,7 +964,7 @@ def predicate_fock(spec, out, rec=None):
         rest = tuple(m for m in range(n) if m not in modes)
         marg = P.sum(axis=rest) if rest else P
         marg = marg.ravel()
-        if not close(marg / marg.sum(), rec["p"], 1e-8):
+        if not close(marg / marg.sum(), rec["p"], 1e-6):  # the code zeroes entries below 1e-8 before normalising
             return "born-distribution"
         if list(rec["a"]) != list(range(len(marg))):
             return "choice-support"
@@ -1547,8 +1547,26 @@ def check_all_measured(spec):
     return check_dyne(spec)[0]
 
 
+def run_corpus(ctx):
+    """replay the recorded inputs first, on every run"""
+    import glob
+    import json
+    import os
+    for f in sorted(glob.glob(os.path.join(coq.VERIF, "corpus", "C06-*.json"))):
+        body = json.load(open(f))
+        d = body["data"]
+        fn = CHECKS.get(REPLAY_ALIASES.get(d.get("check"), d.get("check")))
+        if fn is None:
+            continue
+        fails = fn(copy.deepcopy(d["spec"]))
+        ctx.case(dict(kind="corpus", file=os.path.basename(f)), nontrivial=False, bucket="corpus")
+        for sig, what in fails:
+            ctx.counterexample(sig, what, dict(check=d["check"], spec=d["spec"]))
+
+
 def search(ctx):
     register_checks()
+    run_corpus(ctx)
     nt_dyne = nontrivial_dyne
     b_dyne = lambda sp: "search:dyne:%s:n%d%s" % (sp["meas"]["kind"], len(sp["live"]), ":del" if sp["deleted"] else "")
     run_stream(ctx, "dyne-family", _fam_gen, check_dyne_family, ctx.budget(60, 700), nt_dyne, b_dyne)
